@@ -46,6 +46,7 @@ type EntityViewParam struct {
 	EntityColor  string
 	EntityHeader string
 	EntityName   string
+	EntityApp    string // the application the entity belongs to (DrawRelation: the application of a local foreign key)
 	EntityAlias  string
 	IgnoredTypes map[string]struct{}
 	Types        map[string]*sysl.Type
@@ -119,7 +120,7 @@ func (v *DataModelView) DrawRelation(
 	relationshipMap map[string]map[string]RelationshipParam,
 ) {
 	entityTokens := strings.Split(viewParam.EntityName, ".")
-	entityApp := entityTokens[0]
+	entityApp := viewParam.EntityApp
 	encEntity := v.UniqueVarForAppName(entityTokens...)
 	v.StringBuilder.WriteString(fmt.Sprintf("%s \"%s\" as %s %s(%s,%s)%s {\n", classString, viewParam.EntityName,
 		encEntity, entityLessThanArrow, viewParam.EntityHeader, viewParam.EntityColor, entityGreaterThanArrow))
@@ -410,6 +411,7 @@ func (v *DataModelView) GenerateDataView(dataParam *DataModelParam) string {
 				EntityColor:  `orchid`,
 				EntityHeader: `D`,
 				EntityName:   entityName,
+				EntityApp:    entityApps[entityName],
 				Types:        typeMap,
 			}
 			v.DrawRelation(viewParam, relEntity, relationshipMap)
